@@ -143,19 +143,47 @@ impl ClientCtx<'_, '_, '_, '_> {
         Self::set_timeout_tcp(&sock, self.lifetime_left()?)?;
         sock.write_all(&self.msg)?;
 
-        Self::set_timeout_tcp(&sock, self.lifetime_left()?)?;
         let mut response_size_buf = [0u8; 2];
-        sock.read_exact(&mut response_size_buf)?;
+        self.tcp_read_exact(&mut sock, &mut response_size_buf)?;
 
         let response_size = u16::from_be_bytes(response_size_buf) as usize;
         if response_size > self.buf.len() {
             return Err(Error::BufferTooShort(response_size));
         }
 
-        Self::set_timeout_tcp(&sock, self.lifetime_left()?)?;
-        sock.read_exact(&mut self.buf[..response_size])?;
+        let (start, lifetime) = (self.start, self.config.query_lifetime_);
+        Self::tcp_read_exact_until(&mut sock, &mut self.buf[..response_size], start, lifetime)?;
 
         Ok(response_size)
+    }
+
+    fn tcp_read_exact(&self, sock: &mut TcpStream, buf: &mut [u8]) -> Result<()> {
+        Self::tcp_read_exact_until(sock, buf, self.start, self.config.query_lifetime_)
+    }
+
+    /// Fills `buf` from the stream, re-arming the socket timeout with the remaining
+    /// query lifetime before every partial read, so that a slow stream cannot extend
+    /// the call beyond the query lifetime.
+    fn tcp_read_exact_until(
+        sock: &mut TcpStream,
+        mut buf: &mut [u8],
+        start: Instant,
+        lifetime: Duration,
+    ) -> Result<()> {
+        while !buf.is_empty() {
+            let elapsed = start.elapsed();
+            if elapsed >= lifetime {
+                return Err(Error::Timeout);
+            }
+            Self::set_timeout_tcp(sock, lifetime - elapsed)?;
+            match sock.read(buf) {
+                Ok(0) => return Err(Error::IoError(ErrorKind::UnexpectedEof.into())),
+                Ok(n) => buf = &mut buf[n..],
+                Err(e) if e.kind() == ErrorKind::Interrupted => {}
+                Err(e) => return Err(e.into()),
+            }
+        }
+        Ok(())
     }
 
     fn udp_exchange(&mut self) -> Result<(usize, Flags)> {
